@@ -14,7 +14,7 @@ use crate::verif::io::pipe;
 use crate::verif::props::c06::pseudo_bytes;
 use crate::verif::rig::exec::{block_on_ready, poll_once};
 use crate::verif::wire::link as rl;
-use crate::verif::wire::transport::{expected_fragments, expected_fragments_ex, segment, Segment};
+use crate::verif::wire::transport::{expected_fragments, expected_fragments_ex, expected_fragments_policy, segment, Segment};
 use proptest::prelude::*;
 use serde::{Deserialize, Serialize};
 
@@ -193,9 +193,13 @@ fn write_side_ok(
     writes: &[Vec<u8>],
 ) -> Result<u8, String> {
     let mut segs = vec![];
-    for w in writes {
-        match rl::try_frame(w) {
-            rl::TryFrame::Ok(f, n) if n == w.len() => {
+    // the writes, taken together, are a sequence of valid link frames (one frame per write or several: how the frames
+    // are handed to the physical layer is not part of the property)
+    let all: Vec<u8> = writes.iter().flatten().copied().collect();
+    let mut rest = &all[..];
+    while !rest.is_empty() {
+        match rl::try_frame(rest) {
+            rl::TryFrame::Ok(f, n) => {
                 let ctrl = if master { 0xC4 } else { 0x44 };
                 if f.ctrl != ctrl || f.dst != dest || f.src != local {
                     return Err(format!(
@@ -207,15 +211,16 @@ fn write_side_ok(
                     Some(s) => segs.push(s),
                     None => return Err("frame without transport header".into()),
                 }
+                rest = &rest[n..];
             }
-            _ => return Err("a physical write is not exactly one valid link frame".into()),
+            _ => return Err("what was written is not a sequence of valid link frames".into()),
         }
     }
     if segs.is_empty() {
         return Err("nothing written".into());
     }
     let n = segs.len();
-    let mut seq = start_seq;
+    let mut seq = start_seq & 0x3F;
     let mut acc = vec![];
     for (i, s) in segs.iter().enumerate() {
         if s.data.len() > 249 {
@@ -224,14 +229,16 @@ fn write_side_ok(
         if s.fir != (i == 0) || s.fin != (i + 1 == n) {
             return Err(format!("segment {i} of {n}: fir={} fin={}", s.fir, s.fin));
         }
+        // a FIR segment may carry any sequence number; the following ones count up from it. How the octets are spread
+        // over the segments is the writer's business as long as no segment is empty or longer than 249
+        if i == 0 {
+            seq = s.seq;
+        }
         if s.seq != seq {
             return Err(format!("segment {i}: sequence {} expected {}", s.seq, seq));
         }
-        if i + 1 < n && s.data.len() != 249 {
-            return Err(format!(
-                "non-final segment {i} carries {} bytes",
-                s.data.len()
-            ));
+        if s.data.is_empty() {
+            return Err(format!("segment {i} of {n} carries no data"));
         }
         seq = (seq + 1) & 0x3F;
         acc.extend_from_slice(&s.data);
@@ -702,7 +709,15 @@ impl Prop for Mutated {
             &interrupts,
             exp.len() + 16,
         );
-        if got != exp {
+        // where the statement leaves a choice (an exact duplicate of the previous segment: discard it or give up the
+        // fragment; broadcast segments: one segment only, or reassembled like any others) every consistent choice is right
+        let alternatives: Vec<Vec<(u16, Option<u16>, Vec<u8>)>> = [(true, false), (false, true), (true, true)]
+            .iter()
+            .map(|(d, b)| expected_fragments_policy(&segs, case.rx_buffer as usize, *d, *b))
+            .collect();
+        if got != exp && alternatives.iter().any(|a| *a == got) {
+            out.label("another_admissible_policy");
+        } else if got != exp {
             let kind = if got.len() < exp.len() {
                 "fragment-lost"
             } else if got.len() > exp.len() {
